@@ -9,12 +9,12 @@ from vf.models import scores as SM
 from vf.scorers import COST_KINDS, cost_pair, fixed_param
 from vf.spec import S, build, short
 
-SHARDS = {"quick": 6, "thorough": 16}
+SHARDS = {"quick": 16, "thorough": 16}
 WATCHDOG = {"quick": 1200, "thorough": 7200}
 CASES = {"quick": 70, "thorough": 500}
 FLOORS = {
-    "quick": {"distinct_nontrivial": 150, "identity_rows": 20000, "direct_rows": 3000,
-              "inequality_rows": 5000, "cases[user-cost]": 20, "long_series_rows": 8},
+    "quick": {"distinct_nontrivial": 360, "identity_rows": 58000, "direct_rows": 52000,
+              "inequality_rows": 25000, "cases[user-cost]": 85, "long_series_rows": 8},
     "thorough": {"distinct_nontrivial": 3000, "identity_rows": 400000},
 }
 ANCHORS = [
@@ -30,7 +30,7 @@ ANCHORS = [
 LEVEL = "exploration"
 RULE = (
     "case = (adapter in {ChangeScore, Saving, LocalAnomalyScore} x cost in {L2, GaussianVar, "
-    "GaussianCov, user L1Cost / ModeCost / ClosureTableCost} x parameter mode x seeded data); all "
+    "GaussianCov, user L1Cost / ModeCost / ClosureTableCost / LazySSECost (reads the inherited _X)} x parameter mode x seeded data); all "
     "admissible 3- and 4-point cuts for n<=12, random ones beyond (n<=40 quick / 200 thorough, "
     "p<=4). Oracles: (i) adapter output == the stated combination of public evaluate() results of "
     "FRESH cost instances (pooled surroundings: a fresh cost fitted on concat(X[s:a],X[b:e])); "
@@ -45,7 +45,7 @@ ASSUMPTIONS = [
     "inequalities only asserted where every involved segment variance stays above 1e-14 (two orders above the floor)",
 ]
 
-USER_COSTS = ["L1Cost", "ModeCost", "ClosureTableCost"]
+USER_COSTS = ["L1Cost", "ModeCost", "ClosureTableCost", "LazySSECost"]
 
 
 def make_recipe(rng, tier):
@@ -54,7 +54,7 @@ def make_recipe(rng, tier):
     p = int(rng.integers(1, pmax + 1))
     user = adapter != "direct" and rng.random() < 0.25
     if user:
-        kind = USER_COSTS[int(rng.integers(3))]
+        kind = USER_COSTS[int(rng.integers(len(USER_COSTS)))]
         if adapter == "Saving":
             kind = "L1Cost"
             cost = S(kind, param=round(float(rng.normal(0, 1)), 2), weight=float(rng.choice([0.5, 1.0, 2.0, 3.0])))
